@@ -51,7 +51,6 @@ ALLOW = {
     "BaseExtractor._list_table_from_from_clause_or_join_clause:[list]|list_child_segments():index:0": ("a from_expression_element has at least one non-keyword child (its table expression)", "fee-nonempty"),
     "MergeExtractor.extract:list_child_segments():index:i+1": ("the merge_statement grammar requires the join condition and match clauses after the USING source, so a bracketed source is never the last child", "merge-source-not-last"),
     "SqlParseLineageAnalyzer.analyze:token_first():optional-deref": ("statements reach analyze() only through split(), which keeps only pieces with a non-comment first token (rule R05.2)", None),
-    "SqlParseLineageAnalyzer.analyze:.tokens:index:1": ("a sqlparse Parenthesis always holds its opening and closing token, so tokens[1] exists", None),
     "TargetHandler._handle:token_first():optional-deref": ("an Identifier group has at least one token", None),
 }
 
